@@ -6,6 +6,7 @@ import (
 	"fmt"
 	"math/big"
 	"math/rand"
+	"os"
 	"reflect"
 	"sync"
 
@@ -18,6 +19,7 @@ import (
 
 type c10Vector struct {
 	Lens  []int    `json:"lens"`
+	Tz    []int    `json:"tz"` // trailing zero bytes per coordinate (at most one non-zero entry)
 	Names []string `json:"names"`
 	Paths []string `json:"paths"`
 }
@@ -144,6 +146,98 @@ func buildPools(rng *rand.Rand) *pointPools {
 	return pp
 }
 
+// trailingZeroBytes of a full-width coordinate
+func tzOf(e *fp.Element) int {
+	b := e.Bytes()
+	n := 0
+	for i := len(b) - 1; i > 0 && b[i] == 0; i-- {
+		n++
+	}
+	return n
+}
+
+// zPools: curve points one of whose coordinates is full width and divisible by 256^t.  Keys "g1/<coord>/<t>", "g2/<coord>/<t>"
+// (coord = index within the group: G1 x=0 y=1; G2 X.A1=0 X.A0=1 Y.A1=2 Y.A0=3).
+type zPools struct {
+	g1 map[string]bn254.G1Affine
+	g2 map[string]bn254.G2Affine
+}
+
+func buildZPools(rng *rand.Rand, maxT int) *zPools {
+	zp := &zPools{g1: map[string]bn254.G1Affine{}, g2: map[string]bn254.G2Affine{}}
+	_, _, g1, g2 := bn254.Generators()
+	var three fp.Element
+	three.SetUint64(3)
+	// G1 x: constructive, x = k * 256^t with x^3 + 3 a square
+	for t := 1; t <= 3; t++ {
+		step := new(big.Int).Lsh(big.NewInt(1), uint(8*t))
+		k := new(big.Int).Rand(rng, new(big.Int).Rsh(fp.Modulus(), uint(8*t+1)))
+		k.Add(k, new(big.Int).Rsh(fp.Modulus(), uint(8*t+1))) // upper half: full width
+		for i := 0; i < 4000; i++ {
+			var x, rhs, y fp.Element
+			x.SetBigInt(new(big.Int).Mul(k, step))
+			rhs.Square(&x).Mul(&rhs, &x).Add(&rhs, &three)
+			if y.Sqrt(&rhs) != nil {
+				p := bn254.G1Affine{X: x, Y: y}
+				if p.IsOnCurve() && fpClass(&p.X) == 32 && tzOf(&p.X) >= t {
+					zp.g1[fmt.Sprintf("g1/0/%d", t)] = p
+					break
+				}
+			}
+			k.Add(k, big.NewInt(1))
+		}
+	}
+	// everything else: random search (probability 256^-t per try)
+	tries := 4000
+	if maxT >= 2 {
+		tries = 600000
+	}
+	for i := 0; i < tries; i++ {
+		k := new(big.Int).Rand(rng, bn254R)
+		var p bn254.G1Affine
+		p.ScalarMultiplication(&g1, k)
+		if t := tzOf(&p.Y); t >= 1 && fpClass(&p.Y) >= 32 {
+			for u := 1; u <= t && u <= 3; u++ {
+				if _, ok := zp.g1[fmt.Sprintf("g1/1/%d", u)]; !ok {
+					zp.g1[fmt.Sprintf("g1/1/%d", u)] = p
+				}
+			}
+		}
+		if i < tries/4 || maxT >= 2 {
+			var q bn254.G2Affine
+			q.ScalarMultiplication(&g2, k)
+			for ci, e := range []*fp.Element{&q.X.A1, &q.X.A0, &q.Y.A1, &q.Y.A0} {
+				if t := tzOf(e); t >= 1 && fpLen(e) == 32 {
+					for u := 1; u <= t && u <= 3; u++ {
+						if _, ok := zp.g2[fmt.Sprintf("g2/%d/%d", ci, u)]; !ok {
+							zp.g2[fmt.Sprintf("g2/%d/%d", ci, u)] = q
+						}
+					}
+				}
+			}
+		}
+		need := 1 + 4
+		if maxT >= 2 {
+			need = 2 + 8
+		}
+		have := 0
+		for u := 1; u <= 2; u++ {
+			if _, ok := zp.g1[fmt.Sprintf("g1/1/%d", u)]; ok {
+				have++
+			}
+			for ci := 0; ci < 4; ci++ {
+				if _, ok := zp.g2[fmt.Sprintf("g2/%d/%d", ci, u)]; ok {
+					have++
+				}
+			}
+		}
+		if have >= need {
+			break
+		}
+	}
+	return zp
+}
+
 func hexOf(b *big.Int) string { return "0x" + b.Text(16) }
 
 // roundTrip checks one proof against the ProofCodec specification: JSON layout (EVM order, hex
@@ -213,12 +307,34 @@ func init() {
 		loadCases(args, &cs)
 		rng := rand.New(rand.NewSource(seed()))
 		pools := buildPools(rng)
+		maxT := 1
+		if os.Getenv("VERIF_TIER") == "thorough" {
+			maxT = 2
+		}
+		var zp *zPools
 		for vi, v := range cs.Vectors {
 			l := v.Lens
 			a, okA := pools.g1[pat(l[0], l[1])]
 			b, okB := pools.g2[pat(l[2], l[3], l[4], l[5])]
 			c, okC := pools.g1[pat(l[6], l[7])]
 			id := fmt.Sprintf("vector%d/%s", vi, pat(l...))
+			for ci, t := range v.Tz {
+				if t == 0 {
+					continue
+				}
+				if zp == nil {
+					zp = buildZPools(rng, maxT)
+				}
+				id += fmt.Sprintf("/tz%d=%d", ci, t)
+				switch {
+				case ci < 2:
+					a, okA = zp.g1[fmt.Sprintf("g1/%d/%d", ci, t)]
+				case ci < 6:
+					b, okB = zp.g2[fmt.Sprintf("g2/%d/%d", ci-2, t)]
+				default:
+					c, okC = zp.g1[fmt.Sprintf("g1/%d/%d", ci-6, t)]
+				}
+			}
 			if !okA || !okB || !okC {
 				emit(Result{ID: id, OK: true, Trivial: true, Kind: "unrealizable", Detail: "no curve point found with this short/full pattern"})
 				continue
